@@ -128,9 +128,9 @@ type c04Seg struct {
 
 func c04Alphabet(thorough bool) []c04Seg {
 	var segs []c04Seg
-	mags := []float64{10, -3.5}
+	mags := []float64{10, -3.5, 0.1, 1200}
 	if thorough {
-		mags = []float64{10, -3.5, 0.1, 1200}
+		mags = []float64{10, -3.5, 0.1, 1200, -20000.25, 107.5}
 	}
 	for _, m := range mags {
 		segs = append(segs,
@@ -152,6 +152,10 @@ func c04Alphabet(thorough bool) []c04Seg {
 		}
 		d[2], d[3] = 6, -4
 		segs = append(segs, c04Seg{fmt.Sprintf("curve(pattern %04b)", pat), 'C', d})
+		if thorough {
+			d[2], d[3] = -1200.5, 4
+			segs = append(segs, c04Seg{fmt.Sprintf("curve(pattern %04b, middle (-1200.5,4))", pat), 'C', d})
+		}
 	}
 	// flex-like couples: second curve mirrors the first
 	segs = append(segs, c04Seg{"curve(hflex a)", 'C', [6]float64{10, 0, 10, 5, 10, 0}}, c04Seg{"curve(hflex b)", 'C', [6]float64{10, 0, 10, -5, 10, 0}})
@@ -182,12 +186,15 @@ func buildGlyph(name string, width float64, start [2]float64, segs []c04Seg) *cf
 }
 
 func c04Programs(r *run.Run) {
-	alpha := c04Alphabet(!r.Quick())
+	alpha := c04Alphabet(true)
 	maxLen := 3
+	if !r.Quick() {
+		maxLen = 4
+	}
 	r.Explore(explore.Config{Name: "C04.segments", Deadline: r.PartDeadline(0.5)},
-		fmt.Sprintf("all glyph programs of <= %d segments over a %d-segment alphabet (lines with zero/non-zero deltas, degenerate lines, curves with every zero/non-zero pattern of the outer deltas, flex-like couples, moves), start points {(0,0),(31990,-31990)}, fractional and integer deltas", maxLen, len(alpha)),
+		fmt.Sprintf("all glyph programs of <= %d segments over a %d-segment alphabet (lines with zero/non-zero deltas, degenerate lines, curves with every zero/non-zero pattern of the outer deltas, flex-like couples, moves), start points {(0,0),(31000,-31000),(-5000,9000)} (paths leaving +-32000 are skipped), fractional and integer deltas", maxLen, len(alpha)),
 		func(c *explore.Ctx) {
-			start := [][2]float64{{0, 0}, {31000, -31000}}[c.Choose(2, "start")]
+			start := [][2]float64{{0, 0}, {31000, -31000}, {-5000, 9000}}[c.Choose(3, "start")]
 			n := 1 + c.Choose(maxLen, "segments")
 			var segs []c04Seg
 			var names []string
@@ -197,20 +204,33 @@ func c04Programs(r *run.Run) {
 				names = append(names, s.name)
 			}
 			c.Sample(func() any { return map[string]any{"start": start, "segments": names} })
+			x, y := start[0], start[1]
+			for _, sg := range segs {
+				for k := 0; k < 6; k += 2 {
+					x, y = x+sg.d[k], y+sg.d[k+1]
+					if math.Abs(x) > 32000 || math.Abs(y) > 32000 {
+						c.Skip("path leaves the coordinate range of the format")
+					}
+				}
+			}
 			c.Nontrivial()
 			g := buildGlyph("A", 500, start, segs)
 			c04Check(c, "segments", []*cff.Glyph{cff.NewGlyph(".notdef", 500), g}, names)
 		})
 
 	r.Explore(explore.Config{Name: "C04.runs"},
-		"periodic runs (period <= 3 over 8 representative segment types) of length 1..60, crossing the 48-entry stack limit; steps of 0.1 and 1/3 (not 16.16 values: rounding must not accumulate)",
+		"periodic runs (period <= 3 over 8 representative segment types) of every length 1..60 (quick) / period <= 4, every length 1..100 (thorough), crossing the 48-entry stack limit; steps of 0.1 and 1/3 (not 16.16 values: rounding must not accumulate)",
 		func(c *explore.Ctx) {
 			reps := []c04Seg{
 				{"line(0.1,0)", 'L', [6]float64{0.1, 0}}, {"line(0,1/3)", 'L', [6]float64{0, 1.0 / 3}}, {"line(1/3,-0.1)", 'L', [6]float64{1.0 / 3, -0.1}},
 				{"curve(general 1/7)", 'C', [6]float64{1.0 / 7, 2, 3, 1.0 / 9, 5, 1.0 / 7}}, {"curve(h..v)", 'C', [6]float64{0.1, 0, 3, 4, 0, 0.1}}, {"curve(v..h)", 'C', [6]float64{0, 0.3, 3, 4, 0.7, 0}},
 				{"curve(h..h)", 'C', [6]float64{0.1, 0, 3, 4, 0.9, 0}}, {"line(10,0)", 'L', [6]float64{10, 0}},
 			}
-			period := 1 + c.Choose(3, "period")
+			maxPeriod := 3
+			if !r.Quick() {
+				maxPeriod = 4
+			}
+			period := 1 + c.Choose(maxPeriod, "period")
 			var unit []c04Seg
 			var names []string
 			for i := 0; i < period; i++ {
@@ -218,7 +238,11 @@ func c04Programs(r *run.Run) {
 				unit = append(unit, s)
 				names = append(names, s.name)
 			}
-			length := explore.Pick(c, "length", 1, 2, 7, 23, 24, 25, 47, 48, 49, 60)
+			var lengths []int
+			for l := 1; l <= 60 || !r.Quick() && l <= 100; l++ {
+				lengths = append(lengths, l)
+			}
+			length := lengths[c.Choose(len(lengths), "length")]
 			var segs []c04Seg
 			for i := 0; i < length; i++ {
 				segs = append(segs, unit[i%period])
@@ -230,9 +254,13 @@ func c04Programs(r *run.Run) {
 }
 
 func c04Stems(r *run.Run) {
-	counts := []int{0, 1, 2, 23, 24, 25, 47, 48, 96}
+	var counts []int
+	for k := 0; k <= 50; k++ {
+		counts = append(counts, k)
+	}
+	counts = append(counts, 71, 72, 73, 95, 96)
 	r.Explore(explore.Config{Name: "C04.stems-masks"},
-		"stem hints: counts {0,1,2,23,24,25,47,48,96} split between horizontal and vertical, with a hint mask first / later / absent, counter masks, glyph width equal / not equal to the default width",
+		"stem hints: every count 0..50 and {71,72,73,95,96} split between horizontal and vertical, with a hint mask first / later / absent, counter masks, glyph width equal / not equal to the default width",
 		func(c *explore.Ctx) {
 			nh := counts[c.Choose(len(counts), "hstems")]
 			nv := counts[c.Choose(len(counts), "vstems")]
@@ -285,13 +313,19 @@ func c04Stems(r *run.Run) {
 
 func c04Widths(r *run.Run) {
 	ws := []float64{0, 500, 500.5, 393, 607, 1000, -50}
+	ws = append(ws, 1131.75, 32000, 499.99998)
+	ng := 5
+	if !r.Quick() {
+		ws = append(ws, -107, 108, 250.25)
+		ng = 5
+	}
 	r.Explore(explore.Config{Name: "C04.widths"},
-		"all 4-glyph fonts with widths from {0,500,500.5,393,607,1000,-50} (7^4 fonts): every width is recovered to 2^-16 from the charstring and the stored defaultWidthX / nominalWidthX",
+		fmt.Sprintf("all %d-glyph fonts with widths from %v: every width is recovered to 2^-16 from the charstring and the stored defaultWidthX / nominalWidthX", ng, ws),
 		func(c *explore.Ctx) {
 			var gl []*cff.Glyph
-			names := []string{".notdef", "A", "B", "C"}
+			names := []string{".notdef", "A", "B", "C", "D"}
 			var wsel []float64
-			for i := 0; i < 4; i++ {
+			for i := 0; i < ng; i++ {
 				w := ws[c.Choose(len(ws), "width")]
 				wsel = append(wsel, w)
 				g := cff.NewGlyph(names[i], w)
